@@ -345,6 +345,19 @@ func (ex *Exec) pushAlt(d int64) {
 	ex.job.push(alt)
 }
 
+// addPC appends a constraint to the path condition (deduplicated).
+func (ex *Exec) addPC(c *Term) {
+	if c == ex.tc.True {
+		return
+	}
+	for _, p := range ex.pc {
+		if p == c {
+			return
+		}
+	}
+	ex.pc = append(ex.pc, c)
+}
+
 func (ex *Exec) check(extra *Term, model bool) (Result, Model, string) {
 	as := make([]*Term, 0, len(ex.pc)+1)
 	as = append(as, ex.pc...)
@@ -362,10 +375,10 @@ func (ex *Exec) fork(c *Term) bool {
 	if d, ok := ex.nextDecision(); ok {
 		switch d {
 		case 1:
-			ex.pc = append(ex.pc, c)
+			ex.addPC(c)
 			return true
 		case 0:
-			ex.pc = append(ex.pc, ex.tc.Not(c))
+			ex.addPC(ex.tc.Not(c))
 			return false
 		case 3:
 			return true
@@ -388,7 +401,7 @@ func (ex *Exec) fork(c *Term) bool {
 	}
 	ex.pushAlt(0)
 	ex.trace = append(ex.trace, 1)
-	ex.pc = append(ex.pc, c)
+	ex.addPC(c)
 	return true
 }
 
@@ -398,7 +411,7 @@ func (ex *Exec) forkValue(t *Term, what string) int64 {
 		panic("symbolic value concretised during package initialisation")
 	}
 	if d, ok := ex.nextDecision(); ok {
-		ex.pc = append(ex.pc, ex.tc.Eq(t, ex.tc.Const(int(t.w), uint64(d))))
+		ex.addPC(ex.tc.Eq(t, ex.tc.Const(int(t.w), uint64(d))))
 		return d
 	}
 	var vals []uint64
@@ -426,7 +439,7 @@ func (ex *Exec) forkValue(t *Term, what string) int64 {
 		ex.pushAlt(int64(v))
 	}
 	ex.trace = append(ex.trace, int64(vals[0]))
-	ex.pc = append(ex.pc, ex.tc.Eq(t, ex.tc.Const(int(t.w), vals[0])))
+	ex.addPC(ex.tc.Eq(t, ex.tc.Const(int(t.w), vals[0])))
 	return int64(vals[0])
 }
 
@@ -459,7 +472,7 @@ func (ex *Exec) assume(c *Term, why string) {
 			ex.abort("infeasible", "assumption unsatisfiable")
 		}
 	}
-	ex.pc = append(ex.pc, c)
+	ex.addPC(c)
 }
 
 // ---------- obligations ----------
